@@ -19,9 +19,13 @@ def octet_extraction(o):
     return bool(o.samples) and all("to fit u8" in (s.get("detail") or "") for s in o.samples)
 
 
-def elems_of(eng, pdesc):
+def elems_of(eng, pdesc, st=None):
     if pdesc[0] == "elems":
         return list(pdesc[1])
+    if pdesc[0] == "be" and isinstance(pdesc[1], VInt) and pdesc[2] and st is not None:
+        # the octets of `x.to_be_bytes()`: the base-256 digits of x
+        arr = VArr(pdesc[2], None, None, pdesc)
+        return [eng.unknown_elem(st, arr, i) for i in range(pdesc[2])]
     if pdesc[0] == "const":
         return [eng.const_int(eng.u8_ty(), c) for c in pdesc[1]]
     return None
@@ -66,7 +70,7 @@ def run_config(chk, config):
             continue
         _, wid, (plen, pdesc), off, site, okpre, Wat = pats[0]
         total = wr.W - W0
-        els = elems_of(eng, pdesc)
+        els = elems_of(eng, pdesc, st)
         good = eng.ent(st, c_eq(off.lin, W0)) and plen == Lin.const(2) and els is not None and len(els) == 2
         why = "patch is not 2 octets at the AVP's first octet"
         if good:
